@@ -116,6 +116,42 @@ def run_units(ctx):
     ctx.traces_vs_impl += len(lines_m)
 
 
+def run_reuse(ctx):
+    """successive connects that reuse ONE caller-owned sslopt dict while the CA-bundle environment changes: the
+    policy of every connect is the Spec's for (the caller's options as given, the environment at that moment),
+    and the caller's dict is left as it was."""
+    import copy
+    seqs = []
+    envs = [None, ("file", "/env/a.pem"), ("file", "/env/b.pem"), ("dir", "/env/capath")]
+    for t0 in itertools.product([None, ssl.CERT_REQUIRED], [None, False], [None, "/opt/ca.pem"]):
+        for e1 in envs:
+            for e2 in envs:
+                if e1 != e2:
+                    seqs.append((t0, [e1, e2, e1]))
+    lines_s, obs, ins = [], [], []
+    for (cert, chk, caf), es in seqs:
+        so, _, _, _ = mk(cert, chk, caf, None, None, None, False)
+        given = copy.deepcopy(so)
+        for step, envk in enumerate(es):
+            _, env, isfile, isdir = mk(None, None, None, None, envk, None, False)
+            host = "url-host.example"
+            real, net = real_policy(so, env, isfile, isdir, host)          # the SAME dict object every time
+            arg = f"{sslopt_arg(given)} {tlsenv_arg(env, isfile, isdir)} {hx(host)}"
+            lines_s.append("s-tls-policy " + arg)
+            obs.append(real)
+            ins.append({"op": "successive _ssl_socket calls sharing one sslopt dict", "sslopt_given": sslopt_arg(given),
+                        "env_sequence": [str(e) for e in es], "step": step, "dict_after": sslopt_arg(so)})
+            ctx.case(key=("reuse", sslopt_arg(given), tuple(map(str, es)), step), nontrivial=step > 0, cls=f"reuse:step={step}")
+        if so != given:
+            ctx.violate("options-affect-only-their-own-connect", "caller-sslopt-dict-modified", ins[-1], sslopt_arg(given), sslopt_arg(so),
+                        size=len(es))
+    out = common.run_driver_parallel(lines_s)
+    for inp, s_, r in zip(ins, out, obs):
+        real_n = "refused" if r.startswith("exn VALUEERROR") else r
+        if s_ != real_n:
+            ctx.violate("policy-as-documented", "stale-" + component_diff(s_, r) + "-after-earlier-connect", inp, s_, r, size=10 + inp["step"])
+
+
 def gen_e2e(ctx):
     rnd = ctx.rng("e2e")
     sslopts = [None, {"cert_reqs": ssl.CERT_NONE}, {"check_hostname": False}, {"ca_certs": "/etc/ca.pem"},
@@ -378,6 +414,7 @@ def run(ctx):
                 "{direct,tunnel} x sslopt x wrap ok/fail x env x redirect to the other scheme (non-trivial = any option "
                 "set); thorough: loopback TLS servers with openssl-minted certificates")
     run_units(ctx)
+    run_reuse(ctx)
     run_e2e(ctx)
     if ctx.thorough():
         run_loopback(ctx)
